@@ -258,7 +258,7 @@ def in_python_domain(ctx, d, v, contract=None):
 
 # ------------------------------------------------------------------------------ body refines contract (generic)
 def verify_refines(reg, fn, contract, make, unit, compare_on_raise=True, inline=None, inline_phantom=False, setup=None,
-                   models=None):
+                   models=None, replayer_factory=None):
     """Run the contract (as the callers see it) and the real body on identical generic inputs
     and require identical outcomes: same return value / same exception class, same bytes
     appended to every sink, same remainder of every source."""
@@ -266,6 +266,8 @@ def verify_refines(reg, fn, contract, make, unit, compare_on_raise=True, inline=
 
     def run(ctx, res=res):
         a_body, a_spec, pairs, info = make(ctx)
+        if replayer_factory is not None:
+            res.replayer = replayer_factory(info)
         it = make_interp(ctx, reg, exclude=fn, inline=inline, models=models)
         it.inline_phantom = inline_phantom
         if setup is not None:
